@@ -559,14 +559,27 @@ func crossCheck(obls []*Obligation, workDir string, timeoutS, seed, par int) (ch
 			renderMu.Unlock()
 			status := "unknown"
 			who := ""
+			type xr struct{ status, who string }
+			ch := make(chan xr, len(solvers))
+			n := 0
 			for _, sp := range solvers {
 				if sp.name == first || (strings.HasPrefix(first, "z3-new") && strings.HasPrefix(sp.name, "z3-new")) {
 					continue
 				}
-				r := solveScriptWith(script, workDir, timeoutS, seed+1, sp.name)
-				if r.Status == "unsat" || r.Status == "sat" {
-					status, who = r.Status, sp.name
+				n++
+				go func(name string) {
+					r := solveScriptWith(script, workDir, timeoutS, seed+1, name)
+					ch <- xr{r.Status, name}
+				}(sp.name)
+			}
+			for i := 0; i < n; i++ {
+				r := <-ch
+				if r.status == "sat" {
+					status, who = "sat", r.who
 					break
+				}
+				if r.status == "unsat" && status != "unsat" {
+					status, who = "unsat", r.who
 				}
 			}
 			mu.Lock()
